@@ -471,6 +471,10 @@ fn check_counts(
     st.ileave.insert(h);
     if readers_not_destroyer {
         st.nontrivial.insert(h);
+        if st.sample.len() < 6 && sig.len() > 40 && sig.len() < 600 {
+            // per thread ("|"-separated): thread, operation (A fetch_add / S fetch_sub / X other), value observed
+            st.sample.push(format!("count-operation history of one execution: {}", sig));
+        }
     }
     Ok(())
 }
@@ -551,8 +555,8 @@ fn finish(
     );
     st.counts
         .add("conc.payload_reads", outs.iter().map(|o| o.reads).sum());
-    if st.sample.is_empty() {
-        st.sample = trace.iter().take(40).cloned().collect();
+    if st.sample.len() < 8 && trace.len() > 6 {
+        st.sample.push(format!("thread programs of one execution: {}", trace.iter().take(30).cloned().collect::<Vec<_>>().join("; ")));
     }
     Ok(())
 }
